@@ -50,6 +50,16 @@ CHECKS = {
          "Oracles per crash point: the file opens; every group loads; the relay set is the old or the new one; all crash points inside one storage transaction leave identical table dumps; offering the interrupted call again followed by all later calls ends in the normalised state of the uninterrupted in-process run. A difference that equals the one a clean restart at the call boundary produces is reported under its own class.",
          "Process death is abort() in the process that owns the connection (no power-loss / torn-page model: SQLite's journal is trusted); ticks are at statement granularity of MDK's storage layer, OpenMLS provider writes are reached through with_connection. Histories are scripted, not searched; create_group is not among the interrupted calls.",
          "3/C12"),
+ "C13": ("E4 crashx + E3 sched + constructor matrix", "model_checking",
+         "three exhaustive enumerations on the real SQLite/SQLCipher backend: (A) every sequence of constructor calls (5 constructors x 2 paths; depth 2 quick, 3 thorough) from each of 6 initial file states (missing, empty, plain, encrypted by caller key, encrypted by keyring key, garbage), judged after every call by a reference model of the documented rules (who may open what; data visible after reopen; keyring entry created once and never replaced; refused open leaves the file byte-identical; no canary / plain header in an encrypted database directory; modes 0600 / 0700); (B) a scripted history with planted canaries on an encrypted database, every file of the database and temp directories byte-scanned for every needle after every API call, at every storage tick inside every call (observer hook) and after a process death at every storage tick (E4 crash enumeration); (C) 2..3 threads calling constructors on one path under the controlled scheduler: depth-first over every schedule up to a preemption bound (2; 3 thorough for new||new), schedule points = yield points in the constructors + the key-generation and connection mutexes",
+         "A: all sequences up to the depth agree with the model. B: no needle in any file at any scan point; wrong key / no key / unencrypted constructor refused, right key shows the same data. C: data written through every successful open is there on reopen (one key, reused), owner-only modes, no plaintext header, no deadlock or panic, for every explored schedule.",
+         "Needles are the planted strings, group ids, the client's public key and every exporter secret of the scanned client (raw and hex); what SQLCipher writes is trusted to be ciphertext (not analysed). SQLITE_TEMP_STORE=2 is compiled into the bundled SQLCipher, so the temp_store pragma cannot be shown to matter in this build. Concurrent opens are interleaved at the listed points only (not inside SQLite); bound 2 preemptions. The mock keyring of keyring-core stands in for the platform keyring.",
+         "3/C13"),
+ "C19": ("E3 sched", "model_checking",
+         "stateless depth-first exploration of every schedule of real threads under a controlled scheduler (schedule points = every lock acquisition of the backend: memory RwLocks, SQLite connection mutex; a thread is enabled when its lock is free), one real execution per schedule, for every program set over three colliding operation alphabets (groups/relays/secrets, snapshots/MLS state, messages/dedup): shapes 1+1, 2+1, 1+1+1 (quick) plus 2+2, 2+1+1, 3+1 (thorough) on both backends; plus concurrent first opens of one database path (yield points in the SQLite constructors, preemption bound 2-3)",
+         "Oracle per schedule: the call results, the full read surface afterwards, and the read surface after rolling back to the snapshot the threads may have taken, equal those of some sequential order of the calls that respects program order and real-time order (computed by running every order on the same backend); deadlock (no enabled thread) and panics are findings.",
+         "Interleavings inside a lock section and inside SQLite are not explored (the backends hold one lock per section; unsynchronised access is excluded by safe Rust). Schedules are complete for the stated program shapes, not for longer programs; concurrent opens use a preemption bound.",
+         "3/C19"),
  "C04": ("E1 lab + adversary toolkit", "model_checking",
          "exhaustive product enumeration on real clients: forged rumor fields x sender role x receiver base state, plus every captured ciphertext re-wrapped (same / foreign h tag, both orders); each case is one delivery to a forked receiver state, judged by a before/after comparison of every stored message",
          "The complete finite product of the stated field domains is delivered to every base state; every stored message is re-hashed and compared with the authenticated sender.",
@@ -116,7 +126,7 @@ def main():
         "engines": [
             {"name": "E1 mdkx", "path": "harness/src/{lab,scenario,explore,props_e1,e1}.rs", "serves_properties": ["C01","C02","C03","C04","C05","C07","C08","C11","C14","C16","C20"], "kind_free_text": "explicit-state model checking of the real client: BFS over per-member delivery graphs with state forking"},
             {"name": "E2 storex", "path": "harness/src/storex.rs", "serves_properties": ["C09","C10","C18"], "kind_free_text": "bounded-exhaustive operation sequences on both storage backends against a reference model"},
-            {"name": "E3 sched", "path": "harness/src/sched.rs", "serves_properties": ["C19","C13"], "kind_free_text": "controlled scheduler over lock callbacks, iterative preemption bounding"},
+            {"name": "E3 sched", "path": "harness/src/sched.rs", "serves_properties": ["C19","C13"], "kind_free_text": "controlled scheduler over lock and yield hooks, stateless DFS over schedules, optional preemption bound"},
             {"name": "E4 crashx", "path": "harness/src/crashx.rs", "serves_properties": ["C12","C13"], "kind_free_text": "child-process crash-point enumeration at every storage statement"},
             {"name": "E5 shapes", "path": "harness/src/shapes.rs", "serves_properties": ["C06","C15","C17"], "kind_free_text": "exhaustive enumeration of bounded input families"},
         ],
